@@ -177,6 +177,11 @@ func (r *runner) waitAdminSettled(want int) {
 		s := r.snapshot()
 		r.evMu.Unlock()
 		ok := true
+		// (a closed admin socket must also be gone from unixSockets: an entry with counter 0 is a
+		// close still in progress — or a descriptor kept for ever, which then fails below)
+		if n, present := caddy.VerifListenerSnapshot().Unix[r.env.poolKey(adm1)]; present && n == 0 {
+			ok = false
+		}
 		for _, a := range []int{adm0, adm1} {
 			n := s.pool[a]
 			if isUnix(a) {
